@@ -17,9 +17,9 @@ A_CACHE = A_ENV + [
 ]
 O_CACHE = ["bursts longer than the stated number of calls, more client goroutines than stated, more than 3 keys", "cost magnitudes >= 2^40", "shards other than 0 and 1"]
 
-QUICK_PAIRS = {(0,1,1),(1,3,1),(1,7,1)}
+QUICK_PAIRS = {(0,1,1),(0,0,1),(1,5,1),(1,8,0)}
 
-MENU = {"set0": 1, "set1": 2, "set2": 4, "del0": 8, "get0": 16, "wait": 32, "ttl0": 64, "get1": 128, "del1": 256, "heavy0": 512, "clear": 1024}
+MENU = {"set0": 1, "set1": 2, "set2": 4, "del0": 8, "get0": 16, "wait": 32, "ttl0": 64, "get1": 128, "del1": 256, "heavy0": 512, "clear": 1024, "heavy2": 2048, "ttlfree0": 4096}
 def menu(*names): return sum(MENU[n] for n in names)
 
 def burst(tiers, **p):
@@ -47,13 +47,17 @@ specs["C01"] = dict(prefixes=["C01.", "no-panic", "no-deadlock"], runs=[
 
 specs["C02"] = dict(prefixes=["C02.", "no-panic", "no-deadlock"], runs=[
   {"pkg": "root", "fn": "vfH_Store_Step", "params": {"entries": 2}, "tiers": QT},
+  {"pkg": "root", "fn": "vfH_C02_UpdateVsEvict", "tiers": QT},
+  {"pkg": "root", "fn": "vfH_C02_ClearVsGet", "params": {"preempt": 3}, "tiers": Q},
+  {"pkg": "root", "fn": "vfH_C02_ClearVsGet", "params": {"preempt": 5}, "tiers": T},
+  {"pkg": "root", "fn": "vfH_C02_ClearVsGet", "params": {"preempt": 3, "writer": 1}, "tiers": QT},
   burst(Q, ops=2, menu=menu("set0", "set1", "get0", "del0"), maxcost=1, setbuf=2, sketch=1, pre=1),
   burst(T, ops=3, menu=menu("set0", "set1", "get0", "del0"), maxcost=1, setbuf=2, sketch=1, pre=1),
   burst(QT, ops=2, menu=menu("set0", "get0", "clear"), maxcost=2, setbuf=2, pre=1),
   burst(T, ops=2, menu=menu("set0", "set1", "get0", "clear"), maxcost=1, setbuf=1, pre=1, sketch=1),
   dict(burst(T, ops=2, menu=menu("set0", "get0", "del0"), maxcost=1, setbuf=2, sketch=1), twin=True),
- ], witnesses=["vfH_Store_Step:end", "vfH_Burst:end"],
- bounds=["Update/Del/Clear of a shard return exactly what they detached (arbitrary shard state, 2 entries)",
+ ], witnesses=["vfH_Store_Step:end", "vfH_Burst:end", "vfH_C02_UpdateVsEvict:end", "vfH_C02_ClearVsGet:end"],
+ bounds=["an overwrite still buffered while another admission evicts the key; Get concurrent with Clear (two goroutines, pre-emption bound 3/5)", "Update/Del/Clear of a shard return exactly what they detached (arbitrary shard state, 2 entries)",
   "bursts of 3 (quick) / 4 (thorough) calls from Set(k0) (new or overwrite), Set(k1), Get(k0), Del(k0) (+Clear) with MaxCost 1..2 so that eviction and rejection occur, arbitrary access-frequency counters, write buffer of 1..2 items; at the start of every Get the set of values already passed to OnExit is snapshotted and the value returned must not be in it; every interleaving with the applier"],
  outside=O_CACHE + ["expiry sweep racing with Get (see C14)"], assumptions=A_CACHE)
 
@@ -64,6 +68,7 @@ specs["C03"] = dict(prefixes=["C03.", "C09.fits", "no-panic"], runs=[
   {"pkg": "root", "fn": "vfH_Policy_Add", "params": {"residents": 6}, "tiers": T, "fallback": "cvc5-int,z3-new", "max_paths": 60000},
   {"pkg": "root", "fn": "vfH_Policy_Ops", "params": {"residents": 3}, "tiers": QT, "fallback": "cvc5-int,z3-new"},
   burst(Q, ops=2, menu=menu("set1", "set2", "del0"), maxcost=2, setbuf=2, sketch=1, pre=2),
+  burst(QT, ops=2, menu=menu("set0", "set1"), maxcost=1, setbuf=4, sketch=1, pre=1),
   burst(T, ops=3, menu=menu("set0", "set1", "set2", "del0"), maxcost=2, setbuf=2, sketch=1, pre=1),
   burst(T, ops=2, menu=menu("set0", "set1", "set2", "heavy0"), maxcost=2, setbuf=2, sketch=1, pre=1),
  ], witnesses=["vfH_Policy_Add:end", "vfH_Policy_Ops:end", "vfH_Burst:end"],
@@ -82,6 +87,8 @@ specs["C04"] = dict(prefixes=["C04.", "no-panic", "no-deadlock"], runs=[
   burst(T, ops=2, menu=menu("set0", "set1", "clear"), maxcost=1, setbuf=2, sketch=1, final=2),
   dict(burst(T, ops=2, menu=menu("set0", "set1"), maxcost=1, setbuf=1, final=1), twin=True),
   {"pkg": "root", "fn": "vfH_C04_ShouldUpdate", "tiers": QT},
+  burst(QT, ops=1, menu=menu("heavy0", "set1"), maxcost=1, setbuf=2, final=1, pre=1),
+  {"pkg": "root", "fn": "vfH_C02_ClearVsGet", "params": {"preempt": 3, "writer": 1}, "tiers": QT},
  ], witnesses=["vfH_Burst:end", "vfH_C04_ShouldUpdate:end"],
  bounds=["bursts of 2..3 (quick) / 3..4 (thorough) calls from Set(k0), Set(k1), Set(k2), Del(k0), Get(k0), Wait, Clear on a pre-state with 0..1 residents, write buffer of 1..2 items (writes get dropped), MaxCost 1..2 with arbitrary sketch contents (admission, rejection and eviction all occur), followed by Clear or Close; per-value counters of OnExit/OnEvict/OnReject and the callback order are checked afterwards; every interleaving with the applier",
   "ShouldUpdate refusing an overwrite: the resident value is not released"],
@@ -99,10 +106,11 @@ specs["C05"] = dict(prefixes=["C05.", "no-panic", "no-deadlock"], runs=[
 
 specs["C06"] = dict(prefixes=["C06.", "no-panic", "no-deadlock"], runs=[
   {"pkg": "root", "fn": "vfH_C06_Faithful", "params": {"pre": 1, "setbuf": 4, "others": 2, "second": 0}, "tiers": Q},
+  {"pkg": "root", "fn": "vfH_C06_Faithful", "params": {"pre": 1, "setbuf": 1, "others": 2, "second": 0}, "tiers": QT},
   {"pkg": "root", "fn": "vfH_C06_Faithful", "params": {"pre": 1, "setbuf": 4, "others": 4, "second": 1}, "tiers": T},
   {"pkg": "root", "fn": "vfH_C06_Faithful", "params": {"pre": 2, "setbuf": 2, "others": 3, "second": 1}, "tiers": T},
   {"pkg": "root", "fn": "vfH_C06_FastPath", "params": {"residents": 3}, "tiers": QT, "fallback": "cvc5-int,z3-new"},
- ], witnesses=["vfH_C06_Faithful:new", "vfH_C06_Faithful:overwrite", "vfH_C06_Faithful:resident", "vfH_C06_FastPath:end"],
+ ], witnesses=["vfH_C06_Faithful:new", "vfH_C06_Faithful:overwrite", "vfH_C06_Faithful:resident", "vfH_C06_Faithful:setdel", "vfH_C06_FastPath:end"],
  bounds=["one client; pre-state with 1..2 residents; (a) Set of a key neither resident nor pending with arbitrary cost 0..255 (MaxCost 2^30), other activity, Wait, Get; (b) overwrite of a resident key then immediate Get; (c) residents stay while other keys are written; every interleaving with the applier",
   "policy fast path: from an arbitrary policy state, an item that fits is admitted without victims"],
  outside=O_CACHE + ["a full reference-model comparison of arbitrary call sequences (only the clauses of the statement are checked)"], assumptions=A_CACHE)
@@ -123,6 +131,11 @@ specs["C09"] = dict(prefixes=["C09.", "no-panic"], runs=[
 
 specs["C13"] = dict(prefixes=["C13.", "no-panic", "no-deadlock"], runs=[
   burst(Q, ops=2, menu=menu("set1", "set2", "del0"), maxcost=1, setbuf=2, sketch=1, iter=1, pre=1),
+  burst(QT, ops=1, menu=menu("heavy2"), maxcost=2, setbuf=2, sketch=1, iter=1, pre=2),
+  burst(QT, ops=1, menu=menu("heavy2", "set2"), maxcost=2, setbuf=1, sketch=1, pre=2, drain=1),
+  burst(QT, ops=1, menu=menu("ttl0"), maxcost=2, setbuf=2, ttl=1, pre=0),
+  burst(QT, ops=2, menu=menu("ttl0", "set1"), maxcost=2, setbuf=2, ttl=1, pre=0),
+  burst(T, ops=2, menu=menu("ttl0", "set1", "heavy2"), maxcost=2, setbuf=2, ttl=1000000000, pre=1, sketch=1),
   burst(T, ops=3, menu=menu("set0", "set1", "set2", "del0", "del1"), maxcost=2, setbuf=1, sketch=1, iter=1, pre=1),
   burst(QT, ops=2, menu=menu("set0", "set1", "del0", "clear"), maxcost=1, setbuf=2, sketch=1, pre=1, iter=1),
   burst(Q, ops=1, menu=menu("set0", "set1", "del0"), maxcost=2, setbuf=2, pre=1, final=1),
@@ -139,16 +152,21 @@ specs["C15"] = dict(prefixes=["C15.", "C04.", "no-panic", "no-deadlock"], runs=[
   burst(T, ops=2, menu=menu("set0", "set1", "del0", "wait"), maxcost=1, setbuf=1, final=1, pre=1, metrics=1, sketch=1),
   burst(T, ops=2, menu=menu("set0", "set1", "del0", "clear"), maxcost=1, setbuf=2, final=2, pre=1, sketch=1),
   {"pkg": "root", "fn": "vfH_C15_WaiterReleased", "tiers": QT},
+  {"pkg": "root", "fn": "vfH_C17_Cells", "tiers": QT},
+  burst(QT, ops=1, menu=menu("set1", "get0"), maxcost=2, setbuf=2, final=1, pre=1, prettl=1),
+  burst(QT, ops=1, menu=menu("set1", "get0"), maxcost=2, setbuf=2, final=2, pre=1, prettl=1),
  ], witnesses=["vfH_Burst:end", "vfH_C15_WaiterReleased:end"],
  bounds=["pre-state with one resident plus a burst of 2 (quick) / 3 (thorough) calls leaving buffered new items, overwrites and tombstones, then Clear() or Close(); afterwards: store, policy empty, capacity and metrics reset, every accepted value released exactly once, a new Set+Wait+Get works (Clear) / every operation is an inert no-op and no goroutine of the cache is left (Close; Close and Clear repeated)", "a goroutine blocked in Wait while Clear runs is released"],
  outside=O_CACHE, assumptions=A_CACHE)
 
-specs["C17"] = dict(prefixes=["C17.", "no-panic", "no-deadlock"], runs=[
+specs["C17"] = dict(prefixes=["C17.", "C15.C17.", "no-panic", "no-deadlock"], runs=[
   {"pkg": "root", "fn": "vfH_C17_Cells", "tiers": QT},
   burst(Q, ops=2, menu=menu("set1", "set2", "get0", "del0"), maxcost=2, setbuf=2, sketch=1, metrics=1, pre=2),
   burst(Q, ops=2, menu=menu("set0", "heavy0", "get1", "set1"), maxcost=3, setbuf=1, metrics=1, pre=1),
+  burst(QT, ops=5, menu=menu("get0"), maxcost=3, setbuf=2, metrics=1, pre=1, bufitems=1, preempt=2),
   burst(T, ops=3, menu=menu("set0", "set1", "get0", "del0"), maxcost=2, setbuf=2, sketch=1, metrics=1, pre=1),
   burst(T, ops=3, menu=menu("set0", "heavy0", "get1", "set1"), maxcost=3, setbuf=1, metrics=1, pre=1, sketch=1),
+  burst(QT, ops=1, menu=menu("ttlfree0", "ttl0"), maxcost=2, setbuf=2, metrics=1, pre=0, ttl=1000000000, ticks=1, freecost=1),
  ], witnesses=["vfH_C17_Cells:end", "vfH_Burst:end"],
  bounds=["Metrics.add/get/Clear on the real 256-cell layout for every metric type and an arbitrary hash (fork over the 25 cell indices)",
   "bursts of 2..3 (quick) / 3..4 (thorough) calls from Set (cost 1), heavier overwrite (cost 2), Get, Del with metrics on, MaxCost 2..3, write buffer 1..2, arbitrary sketch contents; after Wait: Hits+Misses = Gets, KeysAdded-KeysEvicted = residents, CostAdded-CostEvicted = MaxCost-RemainingCost, SetsDropped = refused new-key Sets, GetsKept+GetsDropped <= Gets"],
@@ -179,6 +197,7 @@ specs["C08"] = dict(prefixes=["no-race", "no-panic", "no-deadlock", "terminates"
   {"pkg": "root", "fn": "vfH_C08_Pair", "params": {"a": a, "b": b, "samekey": sk, "preempt": 2}, "tiers": (QT if (a, b, sk) in QUICK_PAIRS else T)}
   for a in range(11) for b in range(a, 11) for sk in (1, 0) if not (sk == 0 and (a >= 5 and b >= 5))
  ] + [
+  {"pkg": "root", "fn": "vfH_C13_IterStops", "tiers": QT},
   {"pkg": "root", "fn": "vfH_C08_Pair", "params": {"a": 0, "b": 1, "samekey": 1, "preempt": 3, "bufitems": 1, "yieldatomics": 1}, "tiers": T},
   {"pkg": "root", "fn": "vfH_C08_Pair", "params": {"a": 1, "b": 7, "samekey": 1, "preempt": 3, "setbuf": 1}, "tiers": T},
   {"pkg": "root", "fn": "vfH_C08_Pair", "params": {"a": 3, "b": 6, "samekey": 1, "preempt": 3, "setbuf": 1}, "tiers": T},
@@ -193,6 +212,14 @@ specs["C10"] = dict(prefixes=["C10.", "no-panic"], runs=[
   {"pkg": "z", "fn": "vfH_C10_Tree", "params": {"pagesize": 80, "prefix": 4, "ops": 1, "menu": 7, "recipe": 0}, "tiers": QT},
   {"pkg": "z", "fn": "vfH_C10_Tree", "params": {"pagesize": 80, "prefix": 4, "ops": 1, "menu": 7, "recipe": 1}, "tiers": QT},
   {"pkg": "z", "fn": "vfH_C10_Tree", "params": {"pagesize": 80, "prefix": 5, "ops": 2, "menu": 2, "recipe": 0}, "tiers": QT},
+  {"pkg": "z", "fn": "vfH_C10_Tree", "params": {"pagesize": 80, "prefix": 1, "ops": 2, "menu": 3}, "tiers": QT},
+  {"pkg": "z", "fn": "vfH_C10_Tree", "params": {"pagesize": 80, "prefix": 7, "ops": 0, "recipe": 0, "sortedvals": 1, "script": 2, "resets": 5}, "tiers": QT},
+  {"pkg": "z", "fn": "vfH_C10_Tree", "params": {"pagesize": 80, "prefix": 10, "ops": 0, "menu": 1, "recipe": 0, "smallbuf": 1, "bufpages": 8}, "tiers": QT},
+  {"pkg": "z", "fn": "vfH_C10_Tree", "params": {"pagesize": 80, "prefix": 10, "ops": 1, "menu": 1, "recipe": 0, "smallbuf": 1, "bufpages": 8}, "tiers": T},
+  {"pkg": "z", "fn": "vfH_C10_Tree", "params": {"pagesize": 80, "prefix": 10, "ops": 1, "menu": 3, "recipe": 1, "smallbuf": 1, "bufpages": 8}, "tiers": T},
+  {"pkg": "z", "fn": "vfH_C10_Tree", "params": {"pagesize": 96, "prefix": 14, "ops": 1, "menu": 1, "recipe": 0, "smallbuf": 1, "bufpages": 10}, "tiers": T},
+  {"pkg": "z", "fn": "vfH_C10_Tree", "params": {"pagesize": 80, "prefix": 12, "ops": 2, "recipe": 0, "sortedvals": 1, "script": 1}, "tiers": T},
+  {"pkg": "z", "fn": "vfH_C10_Tree", "params": {"pagesize": 80, "prefix": 9, "ops": 3, "recipe": 0, "sortedvals": 1, "script": 1}, "tiers": T},
   {"pkg": "z", "fn": "vfH_C10_Tree", "params": {"pagesize": 80, "prefix": 4, "ops": 2, "menu": 3, "recipe": 0}, "tiers": T},
   {"pkg": "z", "fn": "vfH_C10_Tree", "params": {"pagesize": 80, "prefix": 4, "ops": 2, "menu": 15, "recipe": 1}, "tiers": T},
   {"pkg": "z", "fn": "vfH_C10_Tree", "params": {"pagesize": 96, "prefix": 6, "ops": 2, "menu": 3, "recipe": 0}, "tiers": T},
@@ -214,10 +241,11 @@ specs["C11"] = dict(prefixes=["C11.", "no-panic"], runs=[
   {"pkg": "z", "fn": "vfH_C11_Slices", "params": {"slices": 3, "maxlen": 3}, "tiers": T},
   {"pkg": "z", "fn": "vfH_C11_Slices", "params": {"slices": 4, "maxlen": 2}, "tiers": T},
   {"pkg": "z", "fn": "vfH_C11_MaxSize", "tiers": QT},
+  {"pkg": "z", "fn": "vfH_C11_Grow", "tiers": QT, "fallback": "cvc5-int,z3-new"},
   {"pkg": "z", "fn": "vfH_C11_Sort", "params": {"slices": 3}, "tiers": QT},
   {"pkg": "z", "fn": "vfH_C11_Sort", "params": {"slices": 4}, "tiers": T},
   {"pkg": "z", "fn": "vfH_C11_Buffer", "params": {"ops": 2, "maxlen": 40, "cap": 64}, "tiers": T, "twin": True},
- ], witnesses=["vfH_C11_Buffer:end", "vfH_C11_Slices:end", "vfH_C11_MaxSize:end", "vfH_C11_Sort:end"],
+ ], witnesses=["vfH_C11_Buffer:end", "vfH_C11_Slices:end", "vfH_C11_MaxSize:end", "vfH_C11_Sort:end", "vfH_C11_Grow:end"],
  bounds=["calloc-mode buffer of initial capacity 64: histories of 2 (quick) / 3 (thorough) operations from Write, WriteSlice, SliceAllocate, Allocate, AllocateOffset, Reset with SYMBOLIC lengths 0..40 (crossing the capacity and the doubling) and symbolic bytes: length and every byte of Bytes() equal the model at an arbitrary position",
   "3..4 length-prefixed slices of symbolic length 0..3 (including empty ones): SliceIterate / SliceOffsets / Slice yield the non-empty ones in order", "WithMaxSize with a symbolic limit and three initial capacities: never exceeded, refusal exactly when the write would exceed it", "SortSlice on 3..4 one-byte slices: ordered permutation"],
  outside=["mmap mode and the automatic switch to mmap (no file model was built: z/file.go, z/mmap_linux.go are not encoded)", "the sorter's multi-chunk merge (>= 1025 slices)", "sort.Slice is a contract stub (any ordering consistent with less)"],
@@ -259,6 +287,8 @@ specs["C14"] = dict(prefixes=["C14.", "no-panic", "no-deadlock"], runs=[
 specs["C16"] = dict(prefixes=["C16.", "no-panic"], runs=[
   {"pkg": "z", "fn": "vfH_C16_Reopen", "params": {"prefix": 5, "ops": 1, "menu": 2, "after": 0}, "tiers": QT},
   {"pkg": "z", "fn": "vfH_C16_Reopen", "params": {"prefix": 5, "ops": 1, "menu": 2, "after": 1, "recipe": 1}, "tiers": QT},
+  {"pkg": "z", "fn": "vfH_C16_Reopen", "params": {"prefix": 9, "ops": 1, "menu": 2, "after": 0, "recipe": 1, "sortedvals": 1}, "tiers": QT},
+  {"pkg": "z", "fn": "vfH_C16_Reopen", "params": {"prefix": 7, "ops": 0, "after": 0, "recipe": 0, "sortedvals": 1, "prescript": 1, "presets": 3}, "tiers": QT},
   {"pkg": "z", "fn": "vfH_C16_Reopen", "params": {"prefix": 5, "ops": 1, "menu": 2, "after": 2}, "tiers": T},
   {"pkg": "z", "fn": "vfH_C16_Reopen", "params": {"prefix": 4, "ops": 2, "menu": 3, "after": 1}, "tiers": T},
   {"pkg": "z", "fn": "vfH_C16_Reopen", "params": {"prefix": 9, "ops": 1, "menu": 2, "after": 1, "recipe": 1}, "tiers": T},
